@@ -292,6 +292,48 @@ pub fn main(tier: Tier) -> ! {
         .reduce(Counts::default, Counts::merge);
     run.family("triples", json!({"core_values": m, "triples": counts.evaluations}));
     run.add(counts);
+
+    // 3. long arrays with ties: sorting algorithms switch strategy with the length, and stability shows only
+    //    on equal elements that can be told apart (1, 1.0, 1.00, the same object in another insertion order)
+    let classes: Vec<Vec<RVal>> = vec![
+        vec![rv::int(1), RVal::Float(1.0), RVal::Dec("1.0".into()), RVal::Dec("1.00".into()), RVal::Dec("1e0".into())],
+        vec![rv::int(0), RVal::Float(-0.0), RVal::Dec("0.0".into()), RVal::Dec("-0.0".into())],
+        vec![crate::eval_const("{\"a\":1,\"b\":2}"), crate::eval_const("{\"b\":2,\"a\":1}")],
+        vec![rv::int(2), RVal::Dec("2.0".into())],
+        vec![RVal::Null],
+        vec![rv::s("a"), rv::s("a")],
+    ];
+    let sort_only = jq::compile_full("sort", &[]).expect("sort");
+    let mut c = Counts::default();
+    let lens: &[usize] = if run.quick() { &[20, 33, 48, 100, 257] } else { &[20, 21, 32, 33, 34, 48, 64, 65, 100, 128, 257, 1000, 5000] };
+    for &len in lens {
+        for pattern in 0..6u64 {
+            // deterministic arrangements: element i is member (i*p) of class (i*q), for a few (p, q)
+            let (p, q) = [(1u64, 1u64), (3, 5), (7, 2), (5, 11), (2, 3), (13, 7)][pattern as usize];
+            let arr: Vec<RVal> = (0..len as u64)
+                .map(|i| {
+                    let cl = &classes[((i * q + i / 7) % classes.len() as u64) as usize];
+                    cl[((i * p + i / 3) % cl.len() as u64) as usize].clone()
+                })
+                .collect();
+            let mut sorted = arr.clone();
+            rv::sort(&mut sorted); // the model sort is stable
+            let key = format!("long sort: length {len} arrangement {pattern}");
+            c.case(h64(&key), true, h64(&(len, pattern)));
+            let got = jq::run_vals(&sort_only, arr.iter().map(jq::to_val).collect(), vec![], 2);
+            let ok = matches!(&got, Ok(outs) if outs.len() == 1 && matches!(&outs[0], Ok(v) if rv::same(&jq::to_rval(v), &RVal::Arr(sorted.clone()))));
+            if !ok {
+                let gs = match &got {
+                    Ok(o) => o.first().map(|x| x.as_ref().map(|v| v.to_string()).unwrap_or_else(|_| "error".into())).unwrap_or_default(),
+                    Err(p) => format!("panic {p}"),
+                };
+                run.violation(&key, json!({"what": "sort is not the stable sort by the documented order", "input": RVal::Arr(arr).to_string().chars().take(600).collect::<String>(), "model_sorted": RVal::Arr(sorted).to_string().chars().take(600).collect::<String>(), "got": gs.chars().take(600).collect::<String>()}));
+            }
+        }
+    }
+    run.family("long arrays with ties", json!({"lengths": lens, "arrangements": 6, "cases": c.evaluations}));
+    run.bound_done(format!("sort of arrays of lengths {lens:?} built from 6 classes of equal but distinguishable values in 6 arrangements: stable"));
+    run.add(c);
     run.bound_done(format!("all ordered triples over a core of {m} values"));
     run.sample(json!({"pair": {"a": vals[3].show(), "b": vals[n / 2].show()}, "program": CMP_PROG}));
     run.sample(json!({"interchange_laws": INTERCHANGE.iter().map(|(n, p)| format!("{n}: {p}")).collect::<Vec<_>>()}));
